@@ -110,3 +110,14 @@ law('scale.radd.zeros', forall([k_, u_, x_], radd(LA.zeros(k_), rscale(x_, u_)) 
 # definitional axioms of pyvc/theory.py and pyvc/specfns.py that are theorems of the same model
 LEAN.update({'rconcat.sum': 'rconcat_sum', 'bconcat.cnt': 'bconcat_cnt', 'eqmask.concat': 'eqmask_concat',
              'rsel.concat': 'sel_concat', 'rsel.len': 'sel_len', 'binarized.concat': 'binarized_concat'})
+
+# ---- positions of a value in a concatenated sequence (LSH tables under partial_fit, C06 / C11)
+from .libnp import reqmask as _reqmask      # noqa: E402
+from .specfns import hashes as _hashes      # noqa: E402
+h_ = z3.Real('h')
+P_ = z3.Const('P', Mat)
+law('where.hashes.vstack', forall([A_, B_, P_, h_], z3.Implies(
+    mcols(A_) == mcols(B_),
+    LA.where(_reqmask(_hashes(LA.mvstack(A_, B_), P_), h_)) ==
+    LA.iconcat(LA.where(_reqmask(_hashes(A_, P_), h_)), LA.ishift(LA.where(_reqmask(_hashes(B_, P_), h_)), mrows(A_)))),
+    [LA.where(_reqmask(_hashes(LA.mvstack(A_, B_), P_), h_))]), ['lsh_hashes'], 'where_hashes_vstack')
